@@ -39,6 +39,7 @@ def main(argv=None):
     try:
         mod = __import__("qsverif." + ENGINES[a.prop], fromlist=["run"])
         rep = mod.run(a.prop, replay_file=a.replay)
+        rep.is_replay = bool(a.replay)
     except Exception:
         traceback.print_exc()
         sys.stderr.write("MACHINERY-ERROR property=%s (exception in the harness)\n" % a.prop)
